@@ -14,8 +14,8 @@ from . import common, programs
 from .common import harness, outcome, mk_ragged, obs_ragged, obs_any, pyint
 
 SELS = ["rowslice_a", "rowlist", "mask", "colslice_a", "colrev", "colstep2", "rowrev"]
-READS = ["repr", "str", "iter", "ravel", "index_view", "rowint", "ufunc", "rowsum", "tolist", "shape", "nonzero", "elem", "npsum"]
-NON_MATERIALISING = ("index_view", "shape")
+READS = ["colstep_view", "rowcol_view", "size", "repr", "str", "iter", "ravel", "index_view", "rowint", "ufunc", "rowsum", "tolist", "shape", "nonzero", "elem", "npsum"]
+NON_MATERIALISING = ("index_view", "shape", "colstep_view", "rowcol_view", "size")
 WRITES = ["set_row", "set_col", "set_all"]
 
 
@@ -31,6 +31,12 @@ def do_read(x, kind, P):
         x.ravel()
     elif kind == "index_view":
         x[:, :1]
+    elif kind == "colstep_view":
+        x[:, ::2]          # a selection that is taken and dropped
+    elif kind == "rowcol_view":
+        x[1:, ::2]
+    elif kind == "size":
+        x.size
     elif kind == "rowint":
         if len(x):
             x[0]
@@ -163,7 +169,13 @@ def jobs(tier, seed):
             for rk in ("repr", "ravel", "index_view", "rowsum"):
                 for target in ("a", "b"):
                     fins.append(dict(sel=sel, read=dict(target=target, kind=rk, pos=1), final=dict(target="b", kind=fk)))
-    corefin = [s_ for s_ in fins if s_["read"]["target"] == "b" and s_["read"]["kind"] in ("repr", "index_view") and (
+    # the source is looked at *before* the selection is taken; then an operation on the selection
+    for sel in ("rowslice_a", "mask", "colslice_a", "rowlist"):
+        for fk in ("colsum", "rowsum", "cumsum", "shape"):
+            for rk in ("size", "repr", "rowsum", "colstep_view"):
+                fins.append(dict(sel=sel, read=dict(target="a", kind=rk, pos=0), final=dict(target="b", kind=fk)))
+    corefin = [s_ for s_ in fins if s_["read"]["pos"] == 0 and s_["sel"] in ("rowslice_a", "mask") and s_["final"]["kind"] in ("colsum", "shape") and s_["read"]["kind"] in ("size", "rowsum", "colstep_view")]
+    corefin += [s_ for s_ in fins if s_["read"]["pos"] == 1 and s_["read"]["target"] == "b" and s_["read"]["kind"] in ("repr", "index_view") and (
         (s_["sel"] in ("rowrev", "rowlist") and s_["final"]["kind"] in ("rowsum", "colsum", "any", "rslice"))
         or (s_["sel"] in ("rowslice_a", "rowrev", "colstep2") and s_["final"]["kind"] in ("colint", "rowcolint")))]
     restfin = [s_ for s_ in fins if s_ not in corefin]
